@@ -1,6 +1,5 @@
 """C13: evolution integrals equal their defining integrals / Taylor truncations; N3LO roots are roots."""
 
-import functools
 import warnings
 
 import numpy as np
@@ -86,24 +85,7 @@ def _cardano_ok(bl):
 
 # ------------------------------------------------------------------ references
 def _amp(k, bs):
-    return _amp_cached(k, tuple(float(b) for b in bs))
-
-
-@functools.lru_cache(maxsize=4096)
-def _amp_cached(k, bs):
-    """Conditioning of any partial-fraction closed form of int a^k/beta: sum of |residues| / beta0."""
-    import mpmath as mp
-
-    with mp.workdps(30):
-        bn = [mp.mpf(b) / mp.mpf(bs[0]) for b in bs]  # 1, b1, b2..
-        amp = mp.mpf(1 if k == 1 else 0)
-        if len(bn) > 1:
-            poly = list(reversed(bn))  # highest power first
-            rts = mp.polyroots(poly, maxsteps=200, extraprec=60)
-            for r in rts:
-                dp = sum(i * bn[i] * r ** (i - 1) for i in range(1, len(bn)))
-                amp += abs(r ** (k - 2) / dp)
-        return float(amp / mp.mpf(bs[0]))
+    return evint.partial_fraction_amp(k, bs)
 
 
 def _exp_scale(k, a0, a1, bs):
